@@ -90,13 +90,16 @@ def main():
             ('grow', 'C02'): ['probe:map-promoted-from-loc_is_iloc', 'probe:growth-after-cache-materialised', 'fault:construct-duplicate', 'fault:growth-duplicate'],
             ('grow', 'C05'): ['probe:growth-after-cache-materialised', 'query-cache:cold', 'query-cache:warm', 'query:frame', 'query:series', 'fault:growth-non-tree-reentry'],
             ('grow', 'C09'): ['probe:valid-growth-after-failed-growth', 'probe:extend-from-pool-member', 'fault:caller-writes-to-retained-buffer',
-                              'fault:growth-duplicate-columns-partial', 'fault:growth-pairs-iterable-fails', 'fault:growth-value-iterable-fails'],
+                              'fault:growth-duplicate-columns-partial', 'fault:growth-pairs-iterable-fails', 'fault:growth-value-iterable-fails',
+                              'probe:shadow-compared-after-rejected-growth'],
             ('store', 'C17'): ['probe:evict', 'probe:evicted-frame-previously-addressed', 'probe:served-after-heal', 'probe:access-while-stale',
                                'probe:generator-advanced-between-other-ops', 'probe:export-and-reopen', 'fault:fired-oserror', 'fault:fired-vanish',
-                               'fault:fs-replace_older', 'fault:fs-truncate', 'fault:fs-delete', 'fault:stale-read-raised'],
+                               'fault:fs-replace_older', 'fault:fs-truncate', 'fault:fs-delete', 'fault:stale-read-raised', 'export-config:default', 'export-config:default_noindex',
+                               'export-config:bare'],
             ('pool', 'C18'): ['probe:out-of-order-completion', 'probe:several-tasks-in-flight', 'pool:completed-at-submit-time', 'pool:chunked-map',
                               'fault:worker-crash-surfaced', 'fault:task-failure-surfaced', 'fault:unpicklable-surfaced'],
-            ('pool', 'C18T'): ['probe:pre-empted-inside-task', 'pool:lock-contention', 'pool:thread-switches'],
+            ('pool', 'C18T'): ['probe:pre-empted-inside-task', 'pool:lock-contention', 'pool:thread-switches', 'fault:thread-stalled-inside-state-writing-function',
+                              'pool:traced-lines-in-state-writing-functions'],
             ('quilt', 'C19'): ['probe:operation-on-quilt-with-unresolved-axis-map', 'probe:quilt-drove-bus-at-its-max_persist-limit',
                                'probe:direct-bus-access-between-quilt-operations', 'probe:served-from-memory-while-stale', 'fault:stale-read-raised'],
             ('pool', 'C19B'): ['batch:direct-equal', 'batch:export-checked', 'probe:out-of-order-completion'],
